@@ -122,6 +122,8 @@ where
                     // references to the task.
                     atomic::fence(Ordering::Acquire);
 
+                    #[cfg(nexosim_verif)]
+                    crate::verif::probe_task(true);
                     dealloc(ptr as *mut u8, Layout::new::<Task<F, S, T>>());
                 }
             });
@@ -173,6 +175,8 @@ where
                 // Release operations that decrement the number of
                 // references to the task.
                 atomic::fence(Ordering::Acquire);
+                #[cfg(nexosim_verif)]
+                crate::verif::probe_task(true);
                 dealloc(ptr as *mut u8, Layout::new::<Task<F, S, T>>());
             }
 
@@ -200,6 +204,8 @@ where
             // the task since it can never be scheduled again.
             if state & REF_MASK == 0 {
                 let _drop_guard = RunOnDrop::new(|| {
+                    #[cfg(nexosim_verif)]
+                    crate::verif::probe_task(true);
                     dealloc(ptr as *mut u8, Layout::new::<Task<F, S, T>>());
                 });
 
@@ -259,6 +265,8 @@ where
             // operations that decrement the number of references to the
             // task.
             atomic::fence(Ordering::Acquire);
+            #[cfg(nexosim_verif)]
+            crate::verif::probe_task(true);
             dealloc(ptr as *mut u8, Layout::new::<Task<F, S, T>>());
         }
     });
